@@ -26,6 +26,15 @@ def step (t : List String) : String :=
         fmtList fmtFloat [r.re, r.im, t.re, t.im]
       | none => "bad-op"
     | _, _, _, _ => "bad-op"
+  | "ravel" :: nd :: rest =>
+    match parseAll? String.toNat? (nd :: rest) with
+    | some (nd :: xs) =>
+      if xs.length ≠ 2 * nd then "bad-op" else
+      let shape := xs.take nd
+      let idx := xs.drop nd
+      let b := ravel shape idx
+      toString b ++ " " ++ " ".intercalate ((unravel shape b).map toString) ++ " " ++ toString (bsize shape)
+    | _ => "bad-op"
   | _ => "bad-op"
 
 def main : IO Unit := mainLoop step
